@@ -31,6 +31,19 @@ type boundedResult struct {
 var boundedFor = map[string][]string{
 	"C02": {"c02_graph_test.go"},
 	"C15": {"c02_graph_test.go"},
+	"C12": {"c12_sort_test.go"},
+}
+
+type boundedSpec struct {
+	run, quickBound, thoroughBound string
+	quickEnv, thoroughEnv          []string
+}
+
+var boundedSpecs = map[string]boundedSpec{
+	"c02_graph_test.go": {"TestVerifBoundedGraph", "all directed graphs (self-loops included) on n <= 4 named tasks, exhaustive",
+		"exhaustive for n <= 4; 300000 pseudo-random graphs each for n = 5 and n = 6", []string{"VERIF_BOUND_N=4"}, []string{"VERIF_BOUND_N=6", "VERIF_BOUND_SAMPLE=300000"}},
+	"c12_sort_test.go": {"TestVerifBoundedSort", "all sequences of creation times from {0..n-1} of length n <= 6, exhaustive (ties included)",
+		"exhaustive for length n <= 7; 200000 pseudo-random sequences of length 13..64 (pdqsort path)", []string{"VERIF_BOUND_N=6"}, []string{"VERIF_BOUND_N=7", "VERIF_BOUND_SAMPLE=200000"}},
 }
 
 func (rc *runCtx) runBounded(prop string) []boundedResult {
@@ -45,15 +58,16 @@ func (rc *runCtx) runBounded(prop string) []boundedResult {
 		b, _ := json.Marshal(map[string]interface{}{"Replace": map[string]string{target: src}})
 		os.WriteFile(ov, b, 0644)
 		env := append(os.Environ(), "GOFLAGS=-mod=mod", "GOPROXY=off", "GOSUMDB=off", "GOTOOLCHAIN=local", fmt.Sprintf("VERIF_SEED=%d", rc.seed))
-		bound := "all directed graphs (self-loops included) on n <= 4 named tasks, exhaustive"
+		bs := boundedSpecs[f]
+		bound := bs.quickBound
 		if rc.tier == "thorough" {
-			env = append(env, "VERIF_BOUND_N=6", "VERIF_BOUND_SAMPLE=300000")
-			bound = "exhaustive for n <= 4; 300000 pseudo-random graphs each for n = 5 and n = 6"
+			env = append(env, bs.thoroughEnv...)
+			bound = bs.thoroughBound
 		} else {
-			env = append(env, "VERIF_BOUND_N=4")
+			env = append(env, bs.quickEnv...)
 		}
 		ctx, cancel := context.WithTimeout(context.Background(), 10*time.Minute)
-		cmd := exec.CommandContext(ctx, "go", "test", "-overlay", ov, "-vet=off", "-count=1", "-timeout", "540s", "-v", "-run", "TestVerifBounded", ".")
+		cmd := exec.CommandContext(ctx, "go", "test", "-overlay", ov, "-vet=off", "-count=1", "-timeout", "540s", "-v", "-run", bs.run, ".")
 		cmd.Dir = rc.w.Repo
 		cmd.Env = env
 		var buf bytes.Buffer
@@ -63,8 +77,8 @@ func (rc *runCtx) runBounded(prop string) []boundedResult {
 		err := cmd.Run()
 		cancel()
 		res := boundedResult{Name: strings.TrimSuffix(f, "_test.go"), Bound: bound, WallS: time.Since(t0).Seconds(), Exhaustive: rc.tier != "thorough",
-			Cmd: "go test -overlay <zz_verif_bounded_test.go -> /verif/bounded/" + f + "> -run TestVerifBounded ."}
-		re := regexp.MustCompile(`BOUNDED maxN=\d+ graphs=(\d+) .*`)
+			Cmd: "go test -overlay <zz_verif_bounded_test.go -> /verif/bounded/" + f + "> -run " + bs.run + " ."}
+		re := regexp.MustCompile(`BOUNDED maxN=\d+ (?:graphs|cases)=(\d+) .*`)
 		for _, l := range strings.Split(buf.String(), "\n") {
 			if m := re.FindStringSubmatch(l); m != nil {
 				fmt.Sscanf(m[1], "%d", &res.Cases)
